@@ -51,6 +51,7 @@ type lsProbeWriter struct {
 	overlaps int32
 	mutated  int32
 	seqMode  int32 // 1: sequential re-rendering, just capture
+	short    int   // > 0: a destination that takes at most this many bytes per call (n < len(p), io.ErrShortWrite)
 
 	mu     sync.Mutex
 	events []lsProbeEvent
@@ -93,6 +94,9 @@ func (w *lsProbeWriter) Write(p []byte) (int, error) {
 	w.events = append(w.events, lsProbeEvent{enter: false, seq: seq, payload: cp})
 	w.mu.Unlock()
 	atomic.AddInt32(&w.inside, -1)
+	if w.short > 0 && len(p) > w.short {
+		return w.short, io.ErrShortWrite // the record is still ONE Write: what to do about the rest is the destination's owner's business
+	}
 	return len(p), nil
 }
 
@@ -358,6 +362,13 @@ func lsGenSystem(r *Rng, cfg Cfg, idx int, s *Stream) *lsSystem {
 			pad := lsPadString(r, op.Pad)
 			via := []string{"handle", "log", "logattrs", "logf", "named", "namedf"}
 			op.Via = Pick(r, via)
+			if r.Chance(8) {
+				// a level between (or below) the five named ones, just under the threshold: slog levels are
+				// plain integers, "below the threshold" is a numeric comparison
+				op.Level = sys.Threshold - 1 - r.Intn(3)
+				op.Via = Pick(r, []string{"log", "logattrs", "logf"})
+				s.Count("op.unnamed-level-below-threshold")
+			}
 			if op.Level < sys.Threshold && op.Via == "handle" {
 				op.Via = "log" // Handler.Handle has no gate of its own (the caller checks Enabled)
 			}
@@ -380,6 +391,10 @@ func lsRunSystem(s *Stream, sys *lsSystem, idx int) {
 	}
 	kind := sys.Kind
 	w := &lsProbeWriter{}
+	if idx%5 == 4 {
+		w.short = 96 // a capacity-limited destination
+		s.Count("system.short-writing-destination")
+	}
 	// every third system reports the call site: the lines then also depend on per-call state
 	// (program counter -> file:line) that must not leak between concurrently logging goroutines
 	opts := logger.NewOptions(slog.Level(sys.Threshold), sys.Colorful, idx%3 == 1)
